@@ -1,3 +1,5 @@
--- Root of the `KDVerif` library: models, drivers, property theorems, audits.
-import KDVerif.Model.Interleaved
-import KDVerif.Driver.Interleaved
+-- Root of the `KDVerif` library: models, drivers, property theorems.
+import KDVerif.Driver.All
+import KDVerif.Props.C04
+import KDVerif.Props.C05
+import KDVerif.Props.C06
